@@ -24,6 +24,8 @@ def run(chk):
              "OutRec::path built only in CheckBounds; polytree children created from outrec->path")
     chk.rule("GUARD", "BuildPath64/D: degenerate-ring guard table; copy loop appends only vertices different from the last appended")
     chk.rule("T.removal", "CleanCollinear removes a vertex iff collinear and (duplicate of a neighbour or !PreserveCollinear or reversal)")
+    chk.rule("INT64.product", "no product is formed in a signed 64-bit integer type: the collinearity / spike tests of CleanCollinear (CrossProduct, "
+             "DotProduct) must not wrap for large coordinates")
     chk.rule("T.point-equality", "Point::operator== is true iff x and y agree (z ignored): the repeated-vertex tests of CleanCollinear and the builders "
              "mean position")
     chk.rule("SPLIT.no-duplicate", "DoSplitOp inserts the rounded intersection point between prevOp and nextNextOp exactly when it differs from both "
@@ -38,6 +40,8 @@ def run(chk):
         e3.clean_collinear_condition(db, chk, cfg)
         e3.split_insert_rule(db, chk, cfg)
         e3.point_equality_table(db, chk, cfg)
+        from ..engines import e9_safety as e9
+        e9.rule_int64_product(db, chk, cfg)
         e10.rule_removal_restart(db, chk, cfg)
         e6.rule_64_d(db, chk, cfg, only=("BuildPath64", "Clipper64::BuildPaths64", "Clipper64::BuildTree64"))
     n = len(cfgs)
